@@ -324,7 +324,8 @@ def rand_wire_pkt(R, flags=None):
             "seq": R.choice([0, 1, R.randrange(2 ** 32)]),
             "ack": (R.choice([0, 1, R.randrange(2 ** 32)]) if (fl & 0x10) else R.choice([0, 0, 0, 0, 5])),
             "flags": fl, "win": 0, "urg": R.choice([0, 0, 0, 0, 7]), "opts": ohex,
-            "payload": R.choice(["", "", "", "41", "474554202f"])}
+            "payload": R.choice(["", "", "", "41", "474554202f"]),
+            "trailer": R.choice([""] * 6 + ["00", "000000000000", "aabb", "474554", bytes(R.randrange(256) for _ in range(R.randint(1, 18))).hex()])}
     q = 0
     if spec["tos"] & 3:
         q |= 1
